@@ -1,4 +1,5 @@
 import OmplModel.Proofs.DubinsClassReal
+import OmplModel.Proofs.DubinsRevCurve
 /-!
 # C14, round 3 — Dubins: the classification table's logic and the symmetric variant
 
@@ -14,7 +15,8 @@ Property theorems about `OmplModel.Dubins` (Model/Dubins.lean); helper lemmas in
   `symmetric_interpolate_reverses` (a `reverse_` path is driven through its (type, length) pairs in reversed
   order with `stepRev`).
 * **[EX]** over ℝ: the order hypotheses hold, the boundary angles `π/2, π, 3π/2` belong to the lower quadrant,
-  the symmetrised distance is symmetric.
+  the symmetrised distance is symmetric; the reversed traversal moves backwards along the
+  chosen path's own curve at unit speed (`symmetric_reverse_traces_forward_curve`).
 
 NOT proved: that the switching functions `s_ij` (float32) select the *minimal* word inside a cell — the
 classification is proved to return *a* candidate, its minimality is compared differentially (checks/c14.py,
@@ -114,6 +116,28 @@ theorem quadrant_boundaries :
 /-- [EX] **The symmetrised Dubins distance is symmetric** (`min` commutes over ℝ). -/
 theorem symmetric_distance_symm (rho : ℝ) (s1 s2 : Pose ℝ) :
     distance rho true s1 s2 = distance rho true s2 s1 := distance_sym_symm rho s1 s2
+
+/-- [EX] **The reversed traversal moves backwards along the chosen path's own curve.**  Let `P` be a path
+(computed from `to` to `from`, `rev = false`, non-negative lengths) and `E` the end of its forward curve from `Q`.
+Driving `P` marked `reverse_` — reversed (type, length) pairs, `stepRev` — from `E` with the budget `t · L`
+(`0 ≤ t ≤ 1`), exactly what `interpolate` does, arrives at the point of the forward curve at arc length
+`(1 − t) · L`: the symmetric `interpolate(t)` lies on the `to → from` curve, traversed backwards at unit speed. -/
+theorem symmetric_reverse_traces_forward_curve (P : Path ℝ) (hrev : P.rev = false)
+    (h1 : 0 ≤ P.t) (h2 : 0 ≤ P.p) (h3 : 0 ≤ P.q) (Q : Pose ℝ) (t : ℝ) (ht0 : 0 ≤ t) (ht1 : t ≤ 1) :
+    integ stepRev (Path.segList { P with rev := true }) (t * P.len) (integFull stepFwd P.segList Q) =
+      integ stepFwd P.segList ((1 - t) * P.len) Q := by
+  have hnn := segList_nonneg P h1 h2 h3
+  have hlen : 0 ≤ P.len := by unfold Path.len; exact add_nonneg (add_nonneg h1 h2) h3
+  rw [segList_rev P hrev]
+  have := reverse_traces_forward_curve P.segList hnn Q (t * P.len) (mul_nonneg ht0 hlen)
+    (by rw [segList_sum]; calc t * P.len ≤ 1 * P.len := mul_le_mul_of_nonneg_right ht1 hlen
+          _ = P.len := one_mul _)
+  rw [this, segList_sum]
+  congr 1; ring
+
+-- non-vacuity: at t = 1/2 of the straight path of length 2 both sides are the midpoint
+example : integ stepFwd (Path.segList (⟨.LSL, 0, 2, 0, false⟩ : Path ℝ)) ((1 - 1 / 2) * 2) ⟨0, 0, 0⟩ =
+    integ stepFwd (Path.segList (⟨.LSL, 0, 2, 0, false⟩ : Path ℝ)) 1 ⟨0, 0, 0⟩ := by norm_num
 
 -- non-vacuity: `[0, 2π]` is inhabited by the boundary angles themselves
 example : (0 : ℝ) ≤ Real.pi / 2 ∧ Real.pi / 2 ≤ 2 * Real.pi := by
